@@ -499,3 +499,9 @@ mod tests {
         assert_eq!(field, "two+two+two");
     }
 }
+
+#[cfg(kani)]
+#[allow(semicolon_in_expressions_from_non_local_macros, unused)]
+mod verif_kani {
+    include!(concat!(env!("VERIF_HARNESS"), "/actix_multipart/field.rs"));
+}
